@@ -39,28 +39,33 @@ const (
 	kAppEx
 	kFire
 	kFireFail
-	kOversize // handler success whose reply does not fit the server's output buffer (NATS: 1 MiB)
+	kOversize      // handler success whose reply does not fit the server's output buffer (NATS: 1 MiB)
+	kUnknownHuge   // unknown method whose name is so long that the UNKNOWN_METHOD reply (which repeats it twice) exceeds 1 MiB
+	kHTTPOverLimit // HTTP: the client announces a response limit (x-frugal-payload-limit) smaller than the reply: HTTP 413, no frame
 	kindCount
 )
 
 var kindNames = [...]string{"add", "echo", "echo-oops", "echo-apierr", "ping", "nothing-oops", "getbig", "blob",
-	"unknown-method", "malformed-truncated", "malformed-badtype", "handler-error", "handler-appex", "oneway", "oneway-fail", "reply-over-limit"}
+	"unknown-method", "malformed-truncated", "malformed-badtype", "handler-error", "handler-appex", "oneway", "oneway-fail", "reply-over-limit", "unknown-method-huge-name", "reply-over-client-limit"}
 
 // one letter per kind for the sequence shape string
-const kindLetters = "aeoxpngbUTMIAfFL"
+const kindLetters = "aeoxpngbUTMIAfFLHC"
 
 type request struct {
-	idx      int
-	kind     int
-	method   string
-	opid     string
-	cid      string
-	token    string
-	frame    []byte
-	oneway   bool
-	lenient  bool // 0 or 1 replies are both acceptable
-	taints   bool // leaves a stream connection in an undefined state
-	sentinel bool
+	idx        int
+	kind       int
+	method     string
+	opid       string
+	cid        string
+	token      string
+	frame      []byte
+	oneway     bool
+	lenient    bool // 0 or 1 replies are both acceptable
+	respLimit  int  // HTTP: value of the x-frugal-payload-limit header (0: none)
+	httpStatus int  // HTTP: status of the response
+	foreign    bool // HTTP: the response frame carried another request's op id
+	taints     bool // leaves a stream connection in an undefined state
+	sentinel   bool
 
 	expType   thrift.TMessageType // REPLY or EXCEPTION
 	expExType int32
@@ -367,6 +372,19 @@ func newRequest1(rng *rand.Rand, proto string, kind int, o genOpts) *request {
 		}
 		r.expType = thrift.EXCEPTION
 		r.expExType = 100 // frugal.APPLICATION_EXCEPTION_RESPONSE_TOO_LARGE
+	case kUnknownHuge:
+		r.method = "nope" + strings.Repeat("0123456789abcdef", 600*1024/16) + fmt.Sprint(rng.Intn(50))
+		args = randTree(rng, 0)
+		r.expType = thrift.EXCEPTION
+		r.expExType = thrift.UNKNOWN_METHOD
+	case kHTTPOverLimit:
+		r.method = "getBig"
+		big := r.token + strings.Repeat("x", 3000+rng.Intn(3000))
+		pl.ret = big
+		args = wire.Struct(wire.F(1, wire.I32(int32(len(big)))), wire.F(2, wire.Str(r.token)))
+		r.respLimit = 200 + rng.Intn(2000)
+		e := wire.Struct(wire.F(0, wire.Str(big)))
+		r.expBody = &e
 	case kFireFail:
 		// the emitted processor answers a failing oneway with an EXCEPTION; the
 		// statement does not say what happens here: zero or one replies accepted
